@@ -169,6 +169,7 @@ func TestC05_Shipped(t *testing.T) {
 		for m, mode := range allModes {
 			c := cell
 			c.Mode = mode
+			c.Short = i%2 == 1 // every other cell spells its options with one letter
 			b, err := BuildShipped(c, false)
 			builds[m] = b
 			defer b.Clean()
